@@ -3,6 +3,7 @@ import CwPlus.Props.C03
 import CwPlus.Props.C15
 import CwPlus.Props.C05Flex
 import CwPlus.Lemmas.Cw3FlexAt
+import CwPlus.Props.C06Flex
 /-!
 # C03 (cw3-flex part) — the status reported for a proposal is the outcome implied by its ballots
 
@@ -216,6 +217,99 @@ theorem rejected_when_stored {s s' : State} {g : Cw4Group.State} {self : Addr} {
   have hst := propStep_stores_rejected (coreStep_prop hi.wf (execute_coreStep h) hp') hs hnew
   exact rejected_hopeless (t := openT p') rfl hprem hst
 
+/-! ## the premise discharged from the history: the `…_reachable` corollaries
+
+`C06Flex.ReachableSnap` = histories with non-decreasing blocks on a cw4-group that satisfies the cw4-group invariant
+(C09).  `CleanStart w.log id p.startHeight` = in the ghost log no group write in the proposal's own block precedes its
+`Propose` — the exact complement of the known same-block finding (D3).  Under that guard the premise of C04 holds for
+the recorded ballots of the proposal in every such world, so the meaning theorems above hold WITHOUT `hprem`. -/
+
+open CwPlus.Props.C06Flex in
+/-- **The premise of C04 holds in every reachable world, outside the same-block finding.**  Recorded ballots ≤ recorded
+total (`C06Flex.flex_sum_ballots_le_total`), recorded total in `u64`, and the proposal's threshold — which is the
+configured one (`Inv'.propThr`) — passes `Threshold::validate` for the recorded total: for `AbsoluteCount k` because
+`Propose` stored a status, so either `total - k` did not underflow or the proposer's own ballot weighs `k ≤ total`. -/
+theorem premise_reachable {ext : Ext} {fuel : Nat} {w : World} {b : Block} (hr : ReachableSnap ext fuel w b) {id : Nat}
+    {p : Proposal} (hp : w.flex.core.proposals.get? id = some p) (hc : CleanStart w.log id p.startHeight) :
+    C04.Premise (ballotTally p (ballotsOf w.flex.core id)) ∧ p.threshold = w.flex.cfg.threshold := by
+  have hq := hr.totalInv
+  obtain ⟨hle, hu, _⟩ := flex_sum_ballots_le_total hr hp hc
+  have hthr := hq.inv'.propThr id p hp
+  refine ⟨⟨?_, hu, ?_⟩, hthr⟩
+  · show C04.cast (tallyOf (ballotsOf w.flex.core id)) ≤ p.totalWeight
+    rw [weightSum_eq] at hle; exact hle
+  · show p.threshold.validate p.totalWeight = .ok ()
+    obtain ⟨t0, hv⟩ := hq.inv'.cfgValid
+    rw [← hthr] at hv
+    refine validate_of_validate hv ?_
+    intro k hk
+    rcases hq.inv'.countOk id p k hp hk with h | ⟨bl, hb, h⟩
+    · exact h
+    · have := weight_le_weightSum hb; omega
+
+open CwPlus.Props.C06Flex in
+/-- **Status = the exact documented rule, no premise** (`status_eq_exact_outcome` with `hprem` discharged): on every
+history with non-decreasing blocks, for every proposal stored Open whose `Propose` was not preceded by a group write in
+its own block, with a threshold of at most 9 decimals, at every query block. -/
+theorem status_eq_exact_outcome_reachable {ext : Ext} {fuel : Nat} {w : World} {b : Block} (hr : ReachableSnap ext fuel w b)
+    {id : Nat} {p : Proposal} (hp : w.flex.core.proposals.get? id = some p) (ho : p.status = .open)
+    (hc : CleanStart w.log id p.startHeight) (h9 : C04.nineDecimals p.threshold) (blk : Block) :
+    ∃ st, (Cw3Flex.queryProposal w.flex blk id).map (·.status) = .ok st ∧
+      (st = .passed ↔ 0 < sumK .yes (ballotsOf w.flex.core id) ∧
+        CertainBy C04.exactPasses p.threshold p.totalWeight (tallyOf (ballotsOf w.flex.core id)) (p.expires.isExpired blk)) ∧
+      (st = .rejected →
+        HopelessBy C04.exactPasses p.threshold p.totalWeight (tallyOf (ballotsOf w.flex.core id)) (p.expires.isExpired blk)) ∧
+      (st = .open → p.expires.isExpired blk = false) ∧
+      (st = .open ∨ st = .passed ∨ st = .rejected) :=
+  status_eq_exact_outcome hr.reachableAt.reachable hp ho (premise_reachable hr hp hc).1 h9 blk
+
+open CwPlus.Props.C06Flex in
+/-- … and for thresholds with up to 18 digits (`status_exact_outcome_within_one` with `hprem` discharged). -/
+theorem status_exact_outcome_within_one_reachable {ext : Ext} {fuel : Nat} {w : World} {b : Block}
+    (hr : ReachableSnap ext fuel w b) {id : Nat} {p : Proposal} (hp : w.flex.core.proposals.get? id = some p)
+    (ho : p.status = .open) (hc : CleanStart w.log id p.startHeight) (blk : Block) :
+    ∃ st, (Cw3Flex.queryProposal w.flex blk id).map (·.status) = .ok st ∧
+      (CertainBy C04.exactPasses p.threshold p.totalWeight (tallyOf (ballotsOf w.flex.core id)) (p.expires.isExpired blk) →
+        st = .passed) ∧
+      (st = .passed → 0 < sumK .yes (ballotsOf w.flex.core id) ∧
+        CertainBy C04.laxPasses p.threshold p.totalWeight (tallyOf (ballotsOf w.flex.core id)) (p.expires.isExpired blk)) ∧
+      (st = .rejected →
+        HopelessBy C04.exactPasses p.threshold p.totalWeight (tallyOf (ballotsOf w.flex.core id)) (p.expires.isExpired blk)) ∧
+      (st = .open → p.expires.isExpired blk = false) ∧
+      (st = .open ∨ st = .passed ∨ st = .rejected) :=
+  status_exact_outcome_within_one hr.reachableAt.reachable hp ho (premise_reachable hr hp hc).1 blk
+
+open CwPlus.Props.C06Flex in
+/-- **A stored Passed is justified, no premise** (`passed_justified` with `hprem` discharged; the unguarded statement is
+false: `passed_justified_counterexample`). -/
+theorem passed_justified_reachable {ext : Ext} {fuel : Nat} {w : World} {b : Block} (hr : ReachableSnap ext fuel w b)
+    {id : Nat} {p : Proposal} (hp : w.flex.core.proposals.get? id = some p) (hs : p.status = .passed)
+    (hc : CleanStart w.log id p.startHeight) {b' : Block} (hb : C04.later b b') :
+    Outcome p (ballotsOf w.flex.core id) b' = .ok .passed :=
+  passed_justified hr.reachableAt hp hs (premise_reachable hr hp hc).1 hb
+
+open CwPlus.Props.C06Flex in
+/-- **A stored Rejected is justified, no premise** (`rejected_justified` with `hprem` discharged). -/
+theorem rejected_justified_reachable {ext : Ext} {fuel : Nat} {w : World} {b : Block} (hr : ReachableSnap ext fuel w b)
+    {id : Nat} {p : Proposal} (hp : w.flex.core.proposals.get? id = some p) (hs : p.status = .rejected)
+    (hc : CleanStart w.log id p.startHeight) {b' : Block} (hb : C04.later b b') :
+    Outcome p (ballotsOf w.flex.core id) b' = .ok .rejected ∧
+    HopelessBy C04.libPasses p.threshold p.totalWeight (tallyOf (ballotsOf w.flex.core id)) (p.expires.isExpired b') ∧
+    HopelessBy C04.exactPasses p.threshold p.totalWeight (tallyOf (ballotsOf w.flex.core id)) (p.expires.isExpired b') :=
+  rejected_justified hr.reachableAt hp hs (premise_reachable hr hp hc).1 hb
+
+open CwPlus.Props.C06Flex in
+/-- **Executable ⇒ the recorded ballots imply Passed, no premise** (`executable_implies_outcome_passed` with `hprem`
+discharged): no proposal created outside the same-block situation becomes executable with a Yes share below its
+threshold. -/
+theorem executable_implies_outcome_passed_reachable {ext : Ext} {fuel : Nat} {w : World} {b : Block}
+    (hr : ReachableSnap ext fuel w b) {b' : Block} (hb : C04.later b b') {g : Cw4Group.State} {self snd : Addr}
+    {funds : List Coin} {id : Nat}
+    (hc : ∀ p, w.flex.core.proposals.get? id = some p → CleanStart w.log id p.startHeight)
+    (h : (Cw3Flex.execute w.flex g self b' snd funds (.execute id)).isOk = true) :
+    ∃ p, w.flex.core.proposals.get? id = some p ∧ Outcome p (ballotsOf w.flex.core id) b' = .ok .passed :=
+  executable_implies_outcome_passed hr.reachableAt hb (fun p hp => (premise_reachable hr hp (hc p hp)).1) h
+
 /-! ## never executable without Yes weight (D1 fixed) -/
 
 /-- Invariant: every proposal stored Passed or Executed has positive Yes weight in its tally. -/
@@ -373,6 +467,48 @@ example :
     (Cw3Flex.execute w.flex w.group "ms" ⟨15, 0⟩ "x" [] (.close 2)).isOk = false := by
   decide
 
+/-! ### non-vacuity of the `…_reachable` corollaries -/
+
+theorem Ex.group0_inv : CwPlus.Props.C09.Inv Ex.group0 :=
+  CwPlus.Props.C09.instantiate_inv
+    (msg := ⟨some ⟨true, "adm"⟩, [(⟨true, "z"⟩, 0), (⟨true, "a"⟩, 2), (⟨true, "b"⟩, 3)]⟩) (h0 := 5) rfl
+
+theorem Ex.group0_logLe : Ex.group0.members.LogLe 5 ∧ Ex.group0.total.LogLe 5 := by
+  have h := CwPlus.Props.C09.instantiate_sameBlock
+    (msg := ⟨some ⟨true, "adm"⟩, [(⟨true, "z"⟩, 0), (⟨true, "a"⟩, 2), (⟨true, "b"⟩, 3)]⟩) (h0 := 5) (s0 := Ex.group0) rfl
+  exact ⟨h.1.logLe (CwPlus.Snapshot.SnapMap.logLe_empty 5) (Nat.le_refl _),
+    h.2.logLe (CwPlus.Snapshot.Cell.logLe_empty 5) (Nat.le_refl _)⟩
+
+open CwPlus.Props.C06Flex in
+/-- the history `Ex.opsJ` is a `ReachableSnap` history (group instantiated at height 5, blocks 10 … 16) -/
+theorem exJ_reachableSnap : ReachableSnap CwPlus.Props.C15.Cex.noExt 10 Ex.finalJ ⟨16, 0⟩ := by
+  have h0 : ReachableSnap CwPlus.Props.C15.Cex.noExt 10 Ex.world0 ⟨10, 0⟩ :=
+    ReachableSnap.init (m := Ex.inst) Ex.group0 CwPlus.Props.C15.Cex.token0 [] "ms" "grp" "tok" 5 ⟨10, 0⟩ rfl
+      Ex.group0_inv Ex.group0_logLe.1 Ex.group0_logLe.2 (by decide)
+  have h1 := ReachableSnap.step ⟨⟨10, 0⟩, .flex "b" [] (.propose "t" "d" [] none)⟩ h0 ⟨Nat.le_refl _, Nat.le_refl _⟩
+  have h2 := ReachableSnap.step ⟨⟨11, 0⟩, .flex "a" [] (.vote 1 .no)⟩ h1 ⟨by decide, by decide⟩
+  have h3 := ReachableSnap.step ⟨⟨11, 0⟩, .flex "a" [] (.propose "t2" "d" [] none)⟩ h2 ⟨Nat.le_refl _, Nat.le_refl _⟩
+  have h4 := ReachableSnap.step ⟨⟨12, 0⟩, .flex "b" [] (.vote 2 .no)⟩ h3 ⟨by decide, by decide⟩
+  exact ReachableSnap.step ⟨⟨16, 0⟩, .flex "x" [] (.close 2)⟩ h4 ⟨by decide, by decide⟩
+
+/-- the guard holds for both proposals of `Ex.finalJ` (started at heights 10 and 11; no group write after height 5);
+it fails for the proposal of the counterexample history `CexJ` below -/
+example : CleanStart Ex.finalJ.log 1 10 ∧ CleanStart Ex.finalJ.log 2 11 := by decide
+
+open CwPlus.Props.C06Flex in
+/-- `passed_justified_reachable` and `rejected_justified_reachable` applied to `Ex.finalJ`: proposal 1 (stored Passed,
+with a later No) and proposal 2 (stored Rejected) are justified by their recorded ballots at block 16 — no premise
+to check by hand. -/
+example : (∀ p, Ex.finalJ.flex.core.proposals.get? 1 = some p → p.status = .passed → p.startHeight = 10 →
+      Outcome p (ballotsOf Ex.finalJ.flex.core 1) ⟨16, 0⟩ = .ok .passed) ∧
+    (∀ p, Ex.finalJ.flex.core.proposals.get? 2 = some p → p.status = .rejected → p.startHeight = 11 →
+      Outcome p (ballotsOf Ex.finalJ.flex.core 2) ⟨16, 0⟩ = .ok .rejected) :=
+  ⟨fun p hp hs hh => passed_justified_reachable exJ_reachableSnap hp hs (by rw [hh]; decide) (later_refl_blk _),
+   fun p hp hs hh => (rejected_justified_reachable exJ_reachableSnap hp hs (by rw [hh]; decide) (later_refl_blk _)).1⟩
+
+example : ((Ex.finalJ.flex.core.proposals.get? 1).map fun p => (p.status, p.startHeight)) = some (.passed, 10) ∧
+    ((Ex.finalJ.flex.core.proposals.get? 2).map fun p => (p.status, p.startHeight)) = some (.rejected, 11) := by decide
+
 /-! ### without the premise the sticky-status statements are FALSE of the code (consequence of D3) -/
 
 namespace CexJ
@@ -420,5 +556,9 @@ theorem passed_justified_counterexample :
     ((Cw3Flex.queryProposal CexJ.final.flex ⟨15, 0⟩ 1).toOption.map (·.status)) = some .passed ∧
     (Cw3Flex.execute CexJ.final.flex CexJ.final.group "ms" ⟨15, 0⟩ "x" [] (.execute 1)).isOk = true := by
   decide
+
+/-- … and the guard of the `…_reachable` corollaries is what excludes this history: a group write in block 10 precedes
+the `Propose` of proposal 1 (start height 10). -/
+example : ¬ CleanStart CexJ.final.log 1 10 := by decide
 
 end CwPlus.Props.C03Flex
